@@ -81,12 +81,22 @@ class QuantityPoint {
     //      BAD: QuantityPoint<Celsius, int> -> QuantityPoint<Kelvins, int>
     //      OK : QuantityPoint<Celsius, int> -> QuantityPoint<Kelvins, double>
     //      OK : QuantityPoint<Celsius, int> -> QuantityPoint<Milli<Kelvins>, int>
+    //
+    // (Units of a different dimension are never convertible.  We must check this first, because
+    // the sum above does not even exist for them, and asking for it would be a hard error rather
+    // than the answer "no".)
+    template <typename OtherUnit, typename OtherRep, bool = HasSameDimension<UnitT, OtherUnit>::value>
+    struct ImplicitlyConstructibleFrom : std::false_type {};
+    template <typename OtherUnit, typename OtherRep>
+    struct ImplicitlyConstructibleFrom<OtherUnit, OtherRep, true>
+        : std::is_convertible<
+              decltype(std::declval<typename QuantityPoint<OtherUnit, OtherRep>::Diff>() +
+                       origin_displacement(UnitT{}, OtherUnit{})),
+              Quantity<UnitT, RepT>> {};
+
     template <typename OtherUnit, typename OtherRep>
     static constexpr bool should_enable_implicit_construction_from() {
-        return std::is_convertible<
-            decltype(std::declval<typename QuantityPoint<OtherUnit, OtherRep>::Diff>() +
-                     origin_displacement(UnitT{}, OtherUnit{})),
-            QuantityPoint::Diff>::value;
+        return ImplicitlyConstructibleFrom<OtherUnit, OtherRep>::value;
     }
 
     // This machinery exists to give us a conditionally explicit constructor, using SFINAE to select
